@@ -161,6 +161,21 @@ pub fn small_alphabet(len: i64) -> Vec<COp> {
         BoxFromIter { b: 2, vals: vec![1, 2, 3] },
         BoxDrop { b: 1 },
         BoxRead { b: 1 },
+        BoxForward { kind: 0, a: 3, b: 5 },
+        BoxForward { kind: 0, a: 5, b: 5 },
+        BoxForward { kind: 0, a: 9, b: 2 },
+        BoxForward { kind: 1, a: 4, b: 1 },
+        BoxForward { kind: 2, a: 7, b: 300 },
+        BoxForward { kind: 3, a: 42, b: 0 },
+        BoxForward { kind: 4, a: 2, b: 99 },
+        BoxForward { kind: 4, a: 0, b: 98 },
+        BoxForward { kind: 5, a: 6, b: 8 },
+        BoxDowncast { b: 1, matching: true, send: false },
+        BoxDowncast { b: 1, matching: false, send: false },
+        BoxDowncast { b: 1, matching: true, send: true },
+        BoxDowncast { b: 1, matching: false, send: true },
+        BoxArray { b: 2, vals: vec![4, 5, 6], back: true },
+        BoxArray { b: 2, vals: vec![7, 8, 9], back: false },
         DropHeld,
         Canary { size: 100 },
         DropVec { v },
